@@ -677,7 +677,8 @@ fn main() {
                 emit_field_change(&mut trace, &a, &b, f, case["hashDiffers"].clone(), "tlc", &mut st);
                 if every > 0 && n as u64 % every == 0 {
                     let with_verdict = verdict_every > 0 && (n as u64 / every) % verdict_every == 0;
-                    let vs: Vec<&str> = if with_verdict { vec!["plain", "all"] } else { VARIANTS.to_vec() };
+                    // (the verdict is the slow part: when it is sampled, it is taken on two variants only)
+                    let vs: Vec<&str> = if with_verdict && verdict_every > 1 { vec!["plain", "all"] } else { VARIANTS.to_vec() };
                     emit_round_trips(&w, &mut trace, &b, &vs, with_verdict, seed + n as u64, "tlc", &mut st);
                 }
                 let key = serde_json::to_string(c).unwrap();
